@@ -94,6 +94,16 @@ void harness(void) {
 	xchacha_str_init(sctx, key, KS, counter, iv24, VF_ROUNDS_ARG);
 	VF_NATIVE_POST(vf_cc_xinit_ok(sctx->c.state, key, VF_CC_KEY_BYTES(KS), counter, 1, iv24, VF_ROUNDS_ARG) &&
 	    sctx->ks_len == 0, "state");
+#elif defined(VF_FN_chacha_final)
+	chacha_final(ctx);
+#ifdef VF_REPLAY
+	{ unsigned w; for (w = 0; w < sizeof(chacha_context_t); w ++) VF_NATIVE_POST(((const uint8_t *)ctx)[w] == 0, "wiped"); }
+#endif
+#elif defined(VF_FN_chacha_str_final)
+	chacha_str_final(sctx);
+#ifdef VF_REPLAY
+	{ unsigned w; for (w = 0; w < sizeof(chacha_context_str_t); w ++) VF_NATIVE_POST(((const uint8_t *)sctx)[w] == 0, "wiped"); }
+#endif
 #else
 #error "select a function with -DVF_FN_<name>"
 #endif
